@@ -55,6 +55,8 @@ MonthR(e) ==
         /\ QEq(Mul(e.keq.meat, I(100)), Mul(al.meat, rb.kd)) /\ QEq(Mul(e.keq.milk, I(100)), Mul(al.milk, rb.kd)))
   \* (only the sum is claimed: the "immediate" part is production net of that month's feed and biofuel and can be negative)
   /\ Ck("SplitAddsUp", QEq(Mul(Add(e.keq.immediate_outdoor_crops, e.keq.new_stored_outdoor_crops), I(100)), Mul(al.outdoor_crops, rb.kd)))
+  \* the part attributed to newly stored crops is what was eaten beyond that month's net production: never negative
+  /\ Ck("FromNewStorageNonNeg", NonNeg(e.keq.new_stored_outdoor_crops))
   /\ Ck("CsvEqualsResult", \A c \in DOMAIN e.keq : QEq(e.csv[c], e.keq[c]))
   /\ rmon' = rmon + 1
   /\ minFed' = IF rmon = 0 THEN e.fed ELSE Min(minFed, e.fed)
